@@ -131,7 +131,7 @@ Proof.
   destruct x as [|x1 [|x2 [|x3 [|x4 [|x5 [|x6 [|x7 [|x8 x]]]]]]]]; [congruence| | | | | | | |];
     cbn [app has_prefix].
   8:{ rewrite !has_prefix_nil. intros H; exact H. }
-  all: repeat match goal with
+  all: timeout 120 repeat match goal with
        | |- context [N.eqb ?a ?c] =>
            lazymatch a with
            | N.pos _ => fail
@@ -394,12 +394,12 @@ Example compose_copy_example :
   /\ option_map o_data (find_obj (fst (handle s (RCopy bk [120]%N bk [122]%N))) bk [122]%N) = Some [1; 2]%N
   /\ r_status (snd (handle s (RCopy bk [119]%N bk [122]%N))) = 404.
 Proof.
-  cbn zeta. split; [vm_compute; reflexivity|]. split; [vm_compute; reflexivity|].
-  split; [vm_compute; discriminate|]. split.
-  { repeat apply Forall_cons; try apply Forall_nil; apply src_usable_code; vm_compute; reflexivity. }
-  split; [vm_compute; reflexivity|]. split; [vm_compute; reflexivity|].
-  split; [vm_compute; reflexivity|]. split; [vm_compute; reflexivity|].
-  split; [|split; vm_compute; reflexivity].
-  eexists _, _, _, _, _. split; [vm_compute; reflexivity|]. split; [vm_compute; reflexivity|].
-  split; [vm_compute; reflexivity|]. split; reflexivity.
+  cbn zeta. split; [timeout 60 vm_compute; reflexivity|]. split; [timeout 60 vm_compute; reflexivity|].
+  split; [timeout 60 vm_compute; discriminate|]. split.
+  { repeat apply Forall_cons; try apply Forall_nil; apply src_usable_code; timeout 60 vm_compute; reflexivity. }
+  split; [timeout 60 vm_compute; reflexivity|]. split; [timeout 60 vm_compute; reflexivity|].
+  split; [timeout 60 vm_compute; reflexivity|]. split; [timeout 60 vm_compute; reflexivity|].
+  split; [|split; timeout 60 vm_compute; reflexivity].
+  eexists _, _, _, _, _. split; [timeout 60 vm_compute; reflexivity|]. split; [timeout 60 vm_compute; reflexivity|].
+  split; [timeout 60 vm_compute; reflexivity|]. split; reflexivity.
 Qed.
